@@ -88,4 +88,45 @@ def exportAmpFiles (dT dC : Data) (f : Rat) (indsT indsC : List (List Nat)) : Am
 def exportPeakToTrough (wfsC : List Mat) (rate : Rat) (nanIdx : List Nat) : List (Option Rat) :=
   (waveformDurations wfsC rate).zipIdx.map fun p => if nanIdx.contains p.2 then none else some p.1
 
+/-! ### which ids are blanked: the ids WITHOUT SPIKES, computed from the spike assignment
+
+The property says "NaN for ids without spikes".  The exporter blanks the ids of `nan_idx`; where that list comes from
+is part of the mechanism: `np.setdiff1d(np.arange(n_clusters), cluster_ids)` with `cluster_ids =
+_unique(spike_clusters)` (EphysAlfCreator.__init__).  (Before that repair the list was `model.nan_idx`, which
+model.py:425 leaves EMPTY when nothing was curated: depth and duration of a template without spikes were numbers.) -/
+
+/-- ids below `n` that no spike is assigned to -/
+def spikelessIds (n : Nat) (sc : List Nat) : List Nat := (List.range n).filter fun c => !sc.contains c
+
+/-- `clusters.depths` as written by `make_depths` (alf.py:216-231): `peaks` = the `clusters.channels` table read back
+from the output directory, `sc` = `model.spike_clusters` -/
+def exportClusterDepths (ys : List Rat) (peaks sc : List Nat) : List (Option Rat) :=
+  clusterDepths ys peaks (spikelessIds peaks.length sc)
+
+/-- `clusters.peakToTrough` as written by `make_cluster_objects` (alf.py:184-190) -/
+def exportDurations (wfsC : List Mat) (rate : Rat) (sc : List Nat) : List (Option Rat) :=
+  exportPeakToTrough wfsC rate (spikelessIds wfsC.length sc)
+
+/-- what `get_depths` reads of the feature store: `sparse_features.data[:, :, 0]` (one row per STORED spike) and
+`sparse_features.cols` (one row per template) -/
+structure Feats where
+  feat0 : List (List Rat)
+  cols : List (List Nat)
+deriving Repr
+
+/-- `TemplateModel.get_depths()` (model.py:1098-1122): `None` without features and when the features are stored
+for a subset of the spikes (`data.shape[0] != n_spikes`, the `pc_feature_spike_ids.npy` layout); otherwise the C09
+feature-weighted depths -/
+def getDepths (fe : Option Feats) (ys : List Rat) (st : List Nat) : Option (List (Option Rat)) :=
+  match fe with
+  | none => none
+  | some f => if f.feat0.length = st.length then some (depths f.feat0 f.cols ys st) else none
+
+/-- `spikes.depths` as written by `make_depths` (alf.py:233-239): the feature-weighted depths when `get_depths()`
+gives them, otherwise the depth of the spike's cluster -/
+def exportSpikeDepths (fe : Option Feats) (ys : List Rat) (peaks st sc : List Nat) : List (Option Rat) :=
+  match getDepths fe ys st with
+  | some d => d
+  | none => spikeDepthsFromClusters (exportClusterDepths ys peaks sc) sc
+
 end PhyVerif.C14
